@@ -9,7 +9,7 @@ import json
 import os
 import re
 
-from vlib.model import Anchor, Call, Prov, guards_of, discr_variants, root_str, short_name
+from vlib.model import Anchor, Call, Prov, guards_of, discr_variants, root_str, short_name, ITER_NEXT
 from vlib import ts as T
 from vlib.valreach import blocks_by_value, values_reaching
 from vlib.enumfn import TASK_STATE
@@ -412,8 +412,44 @@ def r6(cx):
                     if sr[0] == "call" and sr[1] == T.Q_STATE and pa.root(f, Call(f, sr[2]).args[0]) == recv:
                         pre &= {s for s in T.STATES if tables[T.STATE_PRED.match(r[1]).group(1)][s] == g.truth}
             closed |= pre
+        # the descent itself must not depend on the state of the visited task: open tasks hang below
+        # finished ones (the next act of a sequence has the finished act as its predecessor)
+        for dname, dcalls in (("children", [c for c in f.calls() if c.q.endswith("Task::children")]),):
+            for c in dcalls:
+                recv = pa.root(f, c.args[0])
+                if not (recv[0] == "call" and ITER_NEXT.search(recv[1])):
+                    continue
+                bad = []
+                for g in guards_of(m, f, c.b, mode="alias"):
+                    r = g.root
+                    if r[0] == "call" and T.STATE_PRED.match(r[1]) and g.truth is not None:
+                        sr = pa.root(f, Call(f, r[2]).args[0])
+                        if sr[0] == "call" and sr[1] == T.Q_STATE and pa.root(f, Call(f, sr[2]).args[0]) == recv:
+                            bad.append("%s=%s" % (T.STATE_PRED.match(r[1]).group(1), g.truth))
+                cx.ob("C03.R6", "%s:descent-unconditional" % name, not bad,
+                      "`%s` descends into the children of every task it visits, whatever that task's state (descent guarded by %s)" % (name, bad or "nothing"), c.loc,
+                      **({} if not bad else {"consequence": "a still open task below a finished one (second act of a sequence, step behind an empty step) is never reached and stays open"}))
         open_states = set(T.STATES) - T.TERMINAL - {"None"}
         missing = sorted(open_states - closed)
         cx.ob("C03.R6", "%s:classes" % name, not missing,
               "`%s` closes descendants in every open state class (not closed: %s)" % (name, missing or "none"), f.loc())
-    cx.floor("C03.R6", 4)
+    # Task::follows collects the steps a cancel has to undo: its recursion must reach through every task
+    fo = m.one(r"^%s::follows$" % TASK)
+    rec = [c for c in fo.calls() if c.q == fo.q]
+    bad = []
+    for c in rec:
+        recv = pa.root(fo, c.args[0])
+        for g in guards_of(m, fo, c.b, mode="alias"):
+            r = g.root
+            if r[0] == "call" and T.STATE_PRED.match(r[1]) and g.truth is not None:
+                sr = pa.root(fo, Call(fo, r[2]).args[0])
+                if sr[0] == "call" and sr[1] == T.Q_STATE and pa.root(fo, Call(fo, sr[2]).args[0]) == recv:
+                    bad.append("%s=%s" % (T.STATE_PRED.match(r[1]).group(1), g.truth))
+    over_children = False
+    for c in rec:
+        recv = pa.root(fo, c.args[0])
+        src = pa.iter_source(fo, ("call", recv[1], recv[2], ())) if recv[0] == "call" else None
+        over_children = over_children or (src is not None and ((src[0][0] == "call" and src[0][1].endswith("Task::children")) or src[0][0] == "local"))
+    cx.ob("C03.R6", "follows:descent-unconditional", bool(rec) and over_children and not bad,
+          "`Task::follows` recurses into every child that is not itself a match, whatever its state (recursion guarded by %s)" % (bad or "nothing"), rec[0].loc if rec else fo.loc())
+    cx.floor("C03.R6", 6)
